@@ -222,6 +222,8 @@ def _mk_fs(rng, nfiles, tname):
         if rng.random() < 0.05:
             text += rng.choice(["\U0001d4b3 non-BMP \U0001f389", "\u2028line sep", "tab\there", "\x0bvt", "nul\x00byte", "\x85nel", "\x0cff"])
         p = "/simfs/%s/f%d.feature" % (tname, i)
+        if rng.random() < 0.06:  # a file NAME with glob metacharacters, next to a file the pattern would match
+            p = "/simfs/%s/f[%d].feature" % (tname, i) if rng.random() < 0.5 else "/simfs/%s/f?%d*.feature" % (tname, i)
         r = rng.random()
         if r < 0.04:
             b = bytearray(text.encode("utf-8") or b"x")
